@@ -69,6 +69,19 @@ class ArrObj:
         return f"<arr {self.name}>"
 
 
+class LolObj:
+    """A Python list of lists of ints: heap[(id,'len')] = outer length, heap[(id,'mult')][j][k] = number of
+    occurrences of k in inner list j.  Order inside an inner list is not modelled (stated in the contract)."""
+    _ids = itertools.count(1000000)
+
+    def __init__(self, name):
+        self.name = name
+        self.id = next(LolObj._ids)
+
+
+MULT_SORT = z3.ArraySort(I, z3.ArraySort(I, I))
+
+
 class FloatModel:
     def __init__(self, mode="R"):
         self.mode = mode
@@ -167,9 +180,10 @@ class Contract:
     """
 
     def __init__(self, func, requires=(), ensures=(), loops=None, float_mode="R", bind=None,
-                 ghost=None, lemmas=(), modifies=None, defs=(), name=None, checks=("bounds", "overflow", "narrow", "divzero"),
+                 ghost=None, lemmas=(), modifies=None, defs=(), name=None, checks=("bounds", "overflow", "narrow", "divzero", "frame"),
                  assume_types=True, note="", nan_aware=False, asserts=None, py_mode=False, inputs=None,
-                 call_facts=None, count_calls=(), rtc_prefs=(), rtc_scope=0):
+                 call_facts=None, count_calls=(), rtc_prefs=(), rtc_scope=0, lists=()):
+        self.lists = tuple(lists)   # parameters that are Python lists of int lists (modelled by multiplicity tables)
         self.rtc_prefs, self.rtc_scope = list(rtc_prefs), rtc_scope   # run-time contract check: soft input preferences
         self.count_calls = tuple(count_calls)   # ghost counters: number of executed calls of these functions
         self.py_mode = py_mode          # Python glue: unknown expressions are opaque instead of fatal
@@ -187,7 +201,7 @@ class Contract:
         self.defs = list(defs)
         self.modifies = modifies
         self.name = name or func
-        self.checks = set(checks)
+        self.checks = set(checks) | {"frame"}
         self.note = note
 
 
@@ -437,6 +451,10 @@ class Exec:
             if a.t is b.t:
                 return a
             raise Undecidable("array variable bound to different arrays at join")
+        if a.k == "ilist":
+            if a.t[0] is b.t[0]:
+                return Val("ilist", (a.t[0], z3.If(c, a.t[1], b.t[1])))
+            return Val("obj", None, OBJ)
         return a
 
     def merge(self, c, s1, s2):
@@ -875,6 +893,14 @@ class Exec:
             return self.vars[key]
         base = self.ev(n.value)
         items = self.index_list(n.slice)
+        if base.k == "lol":
+            if len(items) != 1:
+                raise Undecidable("list-of-lists index")
+            j = self.to_int(self.ev(items[0]))
+            if not self.spec_mode:
+                self.oblige("bounds", f"{src_of(n)}: list index within [0, len)",
+                            z3.And(j >= 0, j < self.heap[(base.t.id, "len")]), n)
+            return Val("ilist", (base.t, j))
         if base.k == "arr":
             a = base.t
             # edges[e, [0, 1]] -> tuple of two elements
@@ -959,7 +985,7 @@ class Exec:
             return Val("func", f"{v.t}.{n.attr}")
         if v.k == "arr" and n.attr == "shape":
             return Val("tuple", [self.mk_int(s) for s in v.t.shape])
-        if v.k in ("arr", "obj", "row"):
+        if v.k in ("arr", "obj", "row", "lol", "ilist"):
             return Val("method", (v, n.attr))
         raise Undecidable(f"attribute {src_of(n)}")
 
@@ -1123,6 +1149,8 @@ class Exec:
                 return Val("int", v.t.shape[0], scalar_type("Py_ssize_t"))
             if v.k == "tuple":
                 return self.const_int(len(v.t))
+            if v.k == "lol":
+                return Val("int", self.heap[(v.t.id, "len")], scalar_type("Py_ssize_t"))
             if v.k == "obj":
                 r = self.fresh("len")
                 self.facts.append(r >= 0)
@@ -1367,6 +1395,21 @@ class Exec:
         return Val("arr", a, T("arr", elem=et, ndim=len(dims)))
 
     def method_call(self, recv, name, n):
+        if recv.k == "lol" and name == "append" and len(n.args) == 1 and isinstance(n.args[0], ast.List) and not n.args[0].elts:
+            lo = recv.t
+            ln = self.heap[(lo.id, "len")]
+            self.heap[(lo.id, "mult")] = z3.Store(self.heap[(lo.id, "mult")], ln, z3.K(I, z3.IntVal(0)))
+            self.heap[(lo.id, "len")] = ln + 1
+            return Val("none")
+        if recv.k == "ilist" and name == "append" and len(n.args) == 1:
+            lo, j = recv.t
+            k = self.to_int(self.ev(n.args[0]))
+            mt = self.heap[(lo.id, "mult")]
+            row = z3.Select(mt, j)
+            self.heap[(lo.id, "mult")] = z3.Store(mt, j, z3.Store(row, k, z3.Select(row, k) + 1))
+            return Val("none")
+        if recv.k in ("lol", "ilist"):
+            raise Undecidable(f"list method {name}")
         args = [self.ev(a) for a in n.args]
         if recv.k == "arr":
             a = recv.t
@@ -1850,7 +1893,9 @@ class Exec:
         base = (parent + "." if parent else "") + token
         cnt = self.labels.setdefault(("loopcnt", base), 0) + 1
         self.labels[("loopcnt", base)] = cnt
-        return base if cnt == 1 else f"{base}#{cnt}"
+        key = base if cnt == 1 else f"{base}#{cnt}"
+        self.labels.setdefault(("loopseq",), []).append(key)
+        return key
 
     def modified(self, body):
         names, arrays = set(), set()
@@ -1924,6 +1969,14 @@ class Exec:
         for nm in sorted(arrays):
             cur = self.vars.get(nm)
             if cur is None:
+                continue
+            if cur.k in ("lol", "ilist"):
+                lo = cur.t if cur.k == "lol" else cur.t[0]
+                self.heap[(lo.id, "mult")] = z3.Const(f"{lo.name}__multh{next(self.n)}", MULT_SORT)
+                if cur.k == "lol":
+                    ln = self.fresh(lo.name + "_len")
+                    self.facts.append(ln >= 0)
+                    self.heap[(lo.id, "len")] = ln
                 continue
             if cur.k == "arr":
                 a = cur.t
@@ -2235,6 +2288,14 @@ class Exec:
                     z3.And(j >= 0, j < nn), rs(z3.Store(r, j, vv), nn) == rs(r, nn) - z3.Select(r, j) + vv),
                     patterns=[rs(z3.Store(r, j, vv), nn)]))
             return self.mk_int(rs(z3.Select(self.heap[arr.id], a), arr.shape[1]))
+        if fn == "mult":
+            # mult(L, j, k): number of occurrences of k in inner list j of the list of lists L
+            v = self.ev(n.args[0])
+            if v.k != "lol":
+                raise Undecidable("mult() of a non-list")
+            j = self.to_int(self.ev(n.args[1]))
+            k = self.to_int(self.ev(n.args[2]))
+            return self.mk_int(z3.Select(z3.Select(self.heap[(v.t.id, "mult")], j), k))
         if fn == "isnan":
             v = self.ev(n.args[0])
             return self.mk_bool(self.nanof(v))
@@ -2276,6 +2337,13 @@ class Exec:
                     self.vars[pn] = Val("none")
                 else:
                     self.vars[pn] = Val("func", b)
+                continue
+            if pn in self.c.lists:
+                lo = LolObj(pn)
+                self.heap[(lo.id, "len")] = z3.Int(f"{pn}__len0")
+                self.heap[(lo.id, "mult")] = z3.Const(f"{pn}__mult0", MULT_SORT)
+                self.facts.append(self.heap[(lo.id, "len")] >= 0)
+                self.vars[pn] = Val("lol", lo, pt)
                 continue
             if pt.kind == "arr":
                 a = ArrObj(pn, pt.elem, pt.ndim or 1, self.fm)
@@ -2333,6 +2401,19 @@ class Exec:
             for e in self.c.ensures:
                 f = self.spec(e)
                 self.oblige("post", f"ensures {e}", f)
+            # frame: an array parameter outside the contract's `modifies` list has its entry contents on return
+            if not self.c.py_mode and "frame" in self.c.checks:
+                for pn, pt in self.f.params:
+                    pv = self.entry_vars.get(pn)
+                    if pv is None or pv.k not in ("arr", "ptr") or pn in (self.c.modifies or ()):
+                        continue
+                    a = pv.t if pv.k == "arr" else pv.t[0]
+                    if a.id not in self.entry_heap:
+                        continue
+                    same = self.heap[a.id] == self.entry_heap[a.id]
+                    if (a.id, "nan") in self.entry_heap and (a.id, "nan") in self.heap:
+                        same = z3.And(same, self.heap[(a.id, "nan")] == self.entry_heap[(a.id, "nan")])
+                    self.oblige("frame", f"array parameter {pn} is not written (not in modifies)", same)
             self.vars, self.heap, self.guard = sv, sh, sg
         for k in self.c.asserts:
             if k.startswith("store:"):
